@@ -5,6 +5,7 @@ from __future__ import annotations
 from abc import ABC, abstractmethod
 from typing import Any, ClassVar, Dict, List, Literal, Optional, Tuple, Type, TYPE_CHECKING
 
+from gymnasium import spaces
 from gymnasium.core import ActType, ObsType
 from prettytable import PrettyTable
 from pydantic import BaseModel, ConfigDict, Field
@@ -224,6 +225,13 @@ class AbstractScriptedAgent(AbstractAgent, ABC):
         return super().get_action(obs=obs, timestep=timestep)
 
 
+def _has_empty_dict(space: spaces.Space) -> bool:
+    """Whether a (nested) Dict space contains a Dict without sub-spaces, which ``gymnasium.spaces.flatten_space`` rejects."""
+    if isinstance(space, spaces.Dict):
+        return len(space.spaces) == 0 or any(_has_empty_dict(sub) for sub in space.spaces.values())
+    return False
+
+
 class ProxyAgent(AbstractAgent, discriminator="proxy-agent"):
     """Agent that sends observations to an RL model and receives actions from that model."""
 
@@ -241,6 +249,16 @@ class ProxyAgent(AbstractAgent, discriminator="proxy-agent"):
 
         type: str = "Proxy_Agent"
         agent_settings: ProxyAgent.AgentSettingsSchema = Field(default_factory=lambda: ProxyAgent.AgentSettingsSchema())
+
+    def model_post_init(self, __context: Any) -> None:
+        """Build the managers, then make sure an observation space that is to be flattened can be flattened."""
+        super().model_post_init(__context)
+        if self.flatten_obs and _has_empty_dict(self.observation_manager.space):
+            raise ValueError(
+                f"Agent '{self.config.ref}': flatten_obs is set, but the observation space contains a dictionary without "
+                "entries (for example an ACL observation with num_rules: 0, a monitored protocol without ports, or no link "
+                "references), which gymnasium cannot flatten. Remove the empty part or set flatten_obs to False."
+            )
 
     def get_action(self, obs: ObsType, timestep: int = 0) -> Tuple[str, Dict]:
         """
